@@ -126,7 +126,7 @@ class VLoop(asyncio.BaseEventLoop):
         self.loop_exceptions = []
         self.tasks = []
         self.set_exception_handler(self._record_exception)
-        self.set_task_factory(self._task_factory)
+        self.set_task_factory(self._pv_task_factory)
 
     # -- BaseEventLoop plumbing ---------------------------------------------------
     def time(self):
@@ -138,7 +138,7 @@ class VLoop(asyncio.BaseEventLoop):
     def _write_to_self(self):
         pass
 
-    def _task_factory(self, loop, coro, **kw):
+    def _pv_task_factory(self, loop, coro, **kw):
         t = asyncio.Task(coro, loop=loop, **kw)
         self.tasks.append(t)
         return t
@@ -218,6 +218,7 @@ class VLoop(asyncio.BaseEventLoop):
             self.run_until(self._vnow)
         except Exception:
             pass
+        self.pending_after_shutdown = [t for t in self.tasks if not t.done()]
         self._ready.clear()
         self._scheduled.clear()
         self.close()
@@ -241,6 +242,8 @@ class Draws:
             f = 1.0
         elif self.mode == "mid":
             f = 0.5
+        elif isinstance(self.mode, (tuple, list)) and self.mode[0] == "const":
+            f = self.mode[1]
         else:
             f = self.rng.randrange(0, 17) / 16.0
         v = a + (b - a) * f
@@ -266,7 +269,9 @@ class LogRecorder(logging.Handler):
         except Exception as exc:  # a broken log call is itself worth seeing
             msg = f"<unformattable log record: {exc!r}>"
             et = et or type(exc).__name__
-        self.records.append((record.name, record.levelname, et, msg[:300]))
+        if et is not None and isinstance(record.exc_info, tuple) and record.exc_info[1] is not None:
+            msg += " :: " + repr(record.exc_info[1])
+        self.records.append((record.name, record.levelname, et, msg[:400]))
 
     def unexpected(self, allowed=("ParseError", "IncompleteReadError")):
         return [r for r in self.records if r[2] is not None and r[2] not in allowed]
